@@ -36,7 +36,7 @@ SolutionFails(c, t) ==
      (IF ~Closed(t) THEN {"open-tree-returned"} ELSE {})
   \cup (IF ~ValidTree(c.g, t) THEN {"not-a-derivation-tree"} ELSE {})
   \cup (IF ~RootOK(c, t) THEN {"wrong-root"} ELSE {})
-  \cup (IF Closed(t) /\ ValidTree(c.g, t) /\ c.phi.op # "skip" /\ ~SatTop(c.g, t, c.phi, c.mdepth) THEN {"constraint-violated"} ELSE {})
+  \cup (IF Closed(t) /\ ValidTree(c.g, t) /\ c.phi.op # "skip" /\ ~HasBigNumeral(t) /\ ~SatTop(c.g, t, c.phi, c.mdepth) THEN {"constraint-violated"} ELSE {})
 
 (* the Solver action that explains event e (enabled and with matching logged scalars) *)
 Explains(c, e) ==
@@ -68,7 +68,8 @@ TNext ==
           IN IF sol # {}
              THEN /\ PrintT(<<"MISMATCH", c.id, l + 1, e.ev, sol>>) /\ PrintT(<<"TRACE", c.id, l, "rejected">>) /\ NextCase
              ELSE IF ENABLED Explains(c, e)
-             THEN Explains(c, e) /\ l' = l + 1 /\ cid' = cid
+             THEN /\ Explains(c, e) /\ l' = l + 1 /\ cid' = cid
+                  /\ (e.ev = "Return" /\ HasBigNumeral(e.tree) => PrintT(<<"UNJUDGED", c.id, l + 1, "numeral beyond 32 bits">>))
              ELSE /\ PrintT(<<"MISMATCH", c.id, l + 1, e.ev,
                               {IF e.ev = "Error" THEN "disallowed-outcome" ELSE "event-not-allowed-by-Solver"}>>)
                   /\ PrintT(<<"STATE", c.id, [pc |-> pc, last |-> last, qlen |-> Cardinality(queue), blen |-> Len(buffer), depth |-> depth,
